@@ -18,6 +18,10 @@ Note(cl) == /\ verdict' = verdict \cup cl
             /\ firstbad' = IF cl # {} /\ firstbad = 0 THEN l ELSE firstbad
             /\ l' = l + 1 /\ UNCHANGED <<tid, done>>
 Live(e) == ~done /\ l <= Len(T.ev) /\ Ev.e = e
+\* the gap's requirement (nanometres) against the limit read off the real gap
+\* update: it must cover the narrowest gap cell
+TrGapLimit == /\ Live("GapLimit") /\ UNCHANGED avars
+              /\ Note(IF Ev.code <= Ev.true + 1 THEN {} ELSE {"GapRequirementCoversEveryGapCell"})
 TrSelect == /\ Live("Select") /\ status = "select"
             /\ LET s == ToL(Ev.step) IN
                /\ step' = s
@@ -45,6 +49,6 @@ Report == /\ ~done /\ l > Len(T.ev)
           /\ PrintT(<<"VERDICT", tid, IF verdict = {} THEN "accept" ELSE "reject",
                       IF firstbad # 0 THEN firstbad ELSE l - 1, verdict>>)
           /\ done' = TRUE /\ UNCHANGED <<avars, tid, l, verdict, firstbad>>
-Next == TrSelect \/ TrPlane \/ TrEnd \/ Report
+Next == TrGapLimit \/ TrSelect \/ TrPlane \/ TrEnd \/ Report
 Spec == Init /\ [][Next]_vars
 =============================================================================
